@@ -3,7 +3,10 @@ package interp
 import (
 	"errors"
 	"fmt"
+	"io/fs"
+	"os"
 	"strings"
+	"time"
 
 	"zsx/term"
 )
@@ -62,7 +65,20 @@ func newVFS() *vfs {
 func (fs *vfs) event(e string) { fs.events = append(fs.events, e) }
 
 var errInjected = errors.New("injected I/O fault")
-var errNotExist = errors.New("file does not exist")
+var errNotExist error = &fs.PathError{Op: "open", Path: "(virtual)", Err: fs.ErrNotExist}
+
+// vfileInfo is the FileInfo of a virtual file.
+type vfileInfo struct {
+	name string
+	size int64
+}
+
+func (i vfileInfo) Name() string       { return i.name }
+func (i vfileInfo) Size() int64        { return i.size }
+func (i vfileInfo) Mode() fs.FileMode  { return 0600 }
+func (i vfileInfo) ModTime() time.Time { return time.Time{} }
+func (i vfileInfo) IsDir() bool        { return false }
+func (i vfileInfo) Sys() any           { return nil }
 
 // fault asks whether the current I/O operation on path fails (one fault per path, explored at every call).
 func (f *vfile) fault(op string) bool {
@@ -165,6 +181,34 @@ func init() {
 	intrinsics["os.Open"] = func(in *Interp, fr *frame, args []Value) Value {
 		return open(in, args[0].(string), false, true)
 	}
+	stat := func(in *Interp, fr *frame, args []Value) Value {
+		fs := in.ghost.vfs
+		path := args[0].(string)
+		n, ok := fs.files[path]
+		if !ok {
+			return Tuple{Iface{}, in.nativeErrValue(errNotExist)}
+		}
+		fi := vfileInfo{name: path, size: int64(len(n.data))}
+		return Tuple{Iface{T: in.fakeType(reflectTypeOf(fi)), V: Native{fi}}, Iface{}}
+	}
+	intrinsics["os.Stat"] = stat
+	intrinsics["os.Lstat"] = stat
+	nativeErrPred := func(pred func(error) bool) Intrinsic {
+		return func(in *Interp, fr *frame, args []Value) Value {
+			itf, _ := args[0].(Iface)
+			if itf.T == nil {
+				return false
+			}
+			if n, ok := itf.V.(Native); ok {
+				if e, ok := n.V.(error); ok {
+					return pred(e)
+				}
+			}
+			return false
+		}
+	}
+	intrinsics["os.IsNotExist"] = nativeErrPred(os.IsNotExist)
+	intrinsics["os.IsExist"] = nativeErrPred(os.IsExist)
 	intrinsics["os.Remove"] = func(in *Interp, fr *frame, args []Value) Value {
 		fs := in.ghost.vfs
 		path := args[0].(string)
